@@ -146,6 +146,15 @@ def run(repo, R):
                 continue  # squareness check shape[0] == shape[1]
             st = stmt_of(fn, node)
             conds = pc.get(id(st), ())
+            if isinstance(other[0], ast.Name) and other[0].id not in params:
+                # the expected size is computed first (on several paths) and compared once: each definition counts as a
+                # comparison under the conditions of that definition
+                defs_ = [a for a in ast.walk(fn) if isinstance(a, ast.Assign) and len(a.targets) == 1 and isinstance(a.targets[0], ast.Name)
+                         and a.targets[0].id == other[0].id and a.lineno < node.lineno]
+                if defs_:
+                    for a in defs_:
+                        compares.append((node, a.value, tuple(pc.get(id(a), ())) + tuple(conds), a))
+                    continue
             compares.append((node, other[0], conds, st))
     if not compares:
         raise AnalysisError("D2", "size check of the density matrix not found", f.where())
